@@ -322,6 +322,10 @@ class BaseTransform:
         # Idea: An operation applied to a Collection is individually
         #    applied to its BaseGeo and to each child.
 
+        if isinstance(displacement, np.ndarray):
+            # the input may be a view of a child's path, which changes while the children are moved
+            displacement = displacement.copy()
+
         for child in getattr(self, "children", []):
             child.move(displacement, start=start)
 
